@@ -273,10 +273,11 @@ def _oracle_decimal(im: Impl, case, v, d, text):
             return (_sig(kind, "trailing-zeros", v, style), f"{case}: {text!r} automatic places with trailing zeros")
         lo = want
     if not ok:
-        if p is None and target == target.to_integral_value() and abs(target) >= 2 ** 53 and isinstance(v, float) \
+        if p is None and isinstance(v, float) and ndec == 0 and shown >= 10 ** 15 \
                 and round_sig_dec(shown, 15, ROUND_HALF_EVEN) == round_sig_dec(abs(target), 15, ROUND_HALF_EVEN):
-            # known class: automatic places print int(float) - digits beyond the 15th are those of the binary value
-            return ("auto-integer:ge2^53", f"{case}: {text!r} reads {shown}, the value is {target}")
+            # known class: automatic places print int(float) in full - digits beyond the 15th are artefacts of
+            # binary64 (of the value above 2^53, of the product value*100 for percentages)
+            return ("auto-integer:over-15-digits", f"{case}: {text!r} reads {shown}, the value is {target}")
         return (_sig(kind, "digits", v, style), f"{case}: {text!r} reads {shown}, value {target} rounds to {lo}")
     # sign: a shown non-zero number carries the sign unless the style is RED (colour only)
     want_neg = v < 0
@@ -494,8 +495,8 @@ def option_sweep(im: Impl):
                     cases.append(("pct", ev, p, sep, ns))
                     for acct in (0, 1):
                         cases.append(("cur", ev, p, sep, ns, acct, "EUR"))
-    # automatic places of an integer-valued product above 2^53 (known finding auto-integer:ge2^53)
-    for v in (754499470762295.0, -900719925474100.0, 123456789012345.0):
+    # automatic places of an integer-valued product with more than 15 digits (known finding auto-integer:over-15-digits)
+    for v in (754499470762295.0, -900719925474100.0, 123456789012345.0, 76388793646236.1):
         for sep in (0, 1):
             cases.append(("pct", enc_val(v), None, sep, 0))
     for code in im.currencies:
